@@ -385,10 +385,10 @@ class Check(object):
         for label, props in cases:
             for j, pr in enumerate(props):
                 flat.append(('%s#%d' % (label, j), None, None, None, pr))
-        tactic = ('cbv [%s]; decide_guards; '
-                  'cbv beta iota delta [close sclose is_neginf lclose slclose fst snd]; '
+        u = ' '.join(unfold)
+        tactic = ('cbv [%s]; decide_guards; cbv [close sclose is_neginf lclose slclose %s]; '
                   'repeat match goal with |- _ /\\ _ => split end; '
-                  'try exact I; interval with (i_prec %d)' % (' '.join(unfold), prec))
+                  'try exact I; interval with (i_prec %d)' % (u, u, prec))
         bad = self.interval(tag, header, tactic, flat, shard=shard, timeout=timeout)
         self.cov['correspondence'][tag]['goals'] = len(flat)
         self.cov['correspondence'][tag]['cases'] = len(cases)
